@@ -13,11 +13,11 @@ import (
 )
 
 // verif:harness props=C05,C03,C01 tprops=C02 tier=quick weight=120
-// verif:bounds SQLiteStore.Dequeue over the SQL model: N=2 rows (thorough 3) on routes r0/r1 in any state with arbitrary timestamps; route filter none/r0/r1; batch 1..2 (thorough 1..3); arbitrary positive lease TTL; the expired-lease sweep either due (last sweep at an arbitrary instant at least the sweep interval ago, or never) or throttled (a nanosecond ago); one call; the store object is fresh apart from the sweep stamp, i.e. this is also the first dequeue after a restart on a table left behind by a killed process (C01: leased-at-crash messages are offered again)
+// verif:bounds SQLiteStore.Dequeue over the SQL model: N=2 rows (thorough 3) on routes r0/r1 in any state with arbitrary timestamps; route filter none/r0/r1; batch 1..2; arbitrary positive lease TTL; the expired-lease sweep either due (last sweep at an arbitrary instant at least the sweep interval ago, or never) or throttled (a nanosecond ago); one call; the store object is fresh apart from the sweep stamp, i.e. this is also the first dequeue after a restart on a table left behind by a killed process (C01: leased-at-crash messages are offered again)
 func VerifC05SQLDequeue() {
 	n, maxBatch := 2, 2
 	if vrt.Thorough() {
-		n, maxBatch = 3, 3
+		n, maxBatch = 3, 2
 	}
 	w, _ := qNew(n, false, true)
 	now := w.now
